@@ -28,7 +28,7 @@ func vzOracleSet(p vsimcore.Params) map[string]bool {
 
 func runNet(s *vsimcore.Sim, p vsimcore.Params) vsimcore.RunInfo {
 	var info vsimcore.RunInfo
-	cfg := vzConfig{oracles: vzOracleSet(p), initialHeight: 1, maxSteps: p.Int("max_steps", 30000)}
+	cfg := vzConfig{oracles: vzOracleSet(p), initialHeight: 1, maxSteps: p.Int("max_steps", 12000)}
 	cfg.nVal = p.Int("min_nodes", 4) + s.Choose("nodes", p.Int("max_nodes", 6)-p.Int("min_nodes", 4)+1)
 	cfg.heights = uint64(p.Int("min_heights", 2) + s.Choose("heights", 3))
 	if s.Pct("initial-height", 25) {
